@@ -42,7 +42,7 @@ CLAIMS = {
     ),
     "C06": dict(
         technique="static analysis: alias analysis of view bindings, who-may-rebind the tables, no-memoisation lint, order-provenance tags, filter mode/operator table extraction, dead-parameter liveness analysis, side-literal table for directed statistics, zero-count pattern lints with embedded positive examples; who-may-bind check of a view's ID list; full-table domain of neighbour-set selections",
-        text="Decides the mechanisms that make views and statistics live and ordered: views alias the live tables, tables are never rebound outside __init__/__setstate__, nothing is memoised, every ordered output follows the view, filter modes map to their comparison operators, view methods forward every parameter, from_view binds all table references, directed totals are sizes of unions (never sums of the two sides), one-sided directed statistics read their own side, stored attribute values are never replaced by a default through truthiness, and every parameter of every view method / stat function is live. Numerical definitions of statistics are not decided. Only IDView.__init__ and from_view bind a view's ID list, and no view is constructed with an explicit ID list elsewhere (V-IDS), so every derived view is validated and in network order. lookup / duplicates examine every ID of the table (V-DOMAIN).",
+        text="Decides the mechanisms that make views and statistics live and ordered: views alias the live tables, tables are never rebound outside __init__/__setstate__, nothing is memoised, every ordered output follows the view, filter modes map to their comparison operators, view methods forward every parameter, from_view binds all table references, directed totals are sizes of unions (never sums of the two sides), one-sided directed statistics read their own side, stored attribute values are never replaced by a default through truthiness, and every parameter of every view method / stat function is live. Numerical definitions of statistics are not decided. Only IDView.__init__ and from_view bind a view's ID list, and no view is constructed with an explicit ID list elsewhere (V-IDS), so every derived view is validated and in network order. lookup / duplicates examine every ID of the table (V-DOMAIN); the threshold of neighbors(idx, s) bounds only sets of the ID table (V-NBR).",
         ref="3 C06",
     ),
     "C07": dict(
